@@ -41,12 +41,16 @@ class Built:
                 self.state_model[sym(name)] = E.to_text(ast)
             else:
                 self.state_model[sym(name)] = E.to_sympy(ast, self.symtab)
+        ui_kw = {}
+        if defn.get("proactive_simplify"):
+            ui_kw["proactive_simplify"] = True
         self.ui_model = ui.Model(
             dt=self.dt,
             state=self.state,
             control=self.control,
             state_model=self.state_model,
             calibration=self.calibration,
+            **ui_kw,
         )
         if attach:
             # annotation read by the monitors (plain data; survives deepcopy/clone)
